@@ -57,7 +57,7 @@ def hiDisc (a : Agent) (l : Cand) (src : Nat) (m : Msg) : Agent × List Out × O
           | some r => (a, [], some r)
           | none =>
             let c : Cand := { uid := 0, ty := 3, net := l.net, addr := src, comp := l.comp, rel := some 0,
-                              prio := match m.prio with | some p => if p == 0 then prflxPriority l.comp else p | none => prflxPriority l.comp }
+                              prio := match m.prio with | some p => if p == 0 then prflxPriority l.net l.comp else p | none => prflxPriority l.net l.comp }
             a.addRemoteCandidate c
 
 theorem handleInbound_eq (a : Agent) (now : Nat) (l : Cand) (src : Nat) (m : Msg) :
